@@ -54,10 +54,28 @@ def render_binding(b, modname, k=0):
     raise ValueError(b)
 
 
+def joined(b):
+    """a trailing "+" marks an alias that continues the import statement of the previous binding:
+    ("from", m, x, w), ("from", m, y, x, "+")  is  `from m import x as w, y as x`"""
+    return b[-1] == "+"
+
+
+def render_body(body, modname):
+    lines, prev = [], None
+    for k, b in enumerate(body):
+        if joined(b) and prev is not None and prev[0] == b[0] and (b[0] == "import" or (b[0] == "from" and prev[1] == b[1])):
+            txt = render_binding(b, modname, k)
+            lines[-1] += ", " + txt.split(" import ", 1)[1] if b[0] == "from" else ", " + txt[len("import "):]
+        else:
+            lines.append(render_binding(b, modname, k))
+        prev = b
+    return lines
+
+
 def render_module(m):
     if m.get("raw") is not None:
         return m["raw"]
-    lines = [render_binding(b, m["name"], k) for k, b in enumerate(m["body"])]
+    lines = render_body(m["body"], m["name"])
     if m["all"] is not None:
         items = ", ".join(repr(n) for n in m["all"])
         txt = f"__all__ = ({items}{',' if m['all'] else ''})" if m["all_tuple"] else f"__all__ = [{items}]"
@@ -160,7 +178,7 @@ def tree_strings(tree, clients=()):
         out.add(m["name"].split(".")[0])
         out.update(m["all"] or [])
         for b in m["body"]:
-            out.update(s for s in b[1:] if isinstance(s, str))
+            out.update(s for s in b[1:] if isinstance(s, str) and s != "+")
             if b[0] in ("from", "star", "import"):
                 out.add(b[1].split(".")[0])
     return out
@@ -204,7 +222,7 @@ def coq_res(r, ids):
 # ---- clients
 
 def client_source(body, used, modname="client_mod"):
-    lines = [render_binding(b, modname, k) for k, b in enumerate(body)]
+    lines = render_body(body, modname)
     lines.append("(" + ", ".join(used) + ("," if len(used) == 1 else "") + ")" if used else "pass")
     return "\n".join(lines) + "\n"
 
@@ -305,13 +323,20 @@ def small_scope_trees():
         [("star", "ma"), ("assign", "w"), "ALL:w,x"],
         [("from", "ma", "y", "x"), ("assign", "y")],
         [("assign", "z"), ("from", "ma", "x", "w"), ("star", "ma")],
+        # several aliases in ONE statement; a name renamed away before another name is aliased to it
+        [("from", "ma", "x", "w"), ("from", "ma", "y", "x", "+")],          # from ma import x as w, y as x
+        [("from", "ma", "y", "x"), ("from", "ma", "x", "w", "+")],          # from ma import y as x, x as w
+        [("import", "ma", "w"), ("import", "mz", "ma", "+")],               # import ma as w, mz as ma
+        [("import", "mz", "ma"), ("import", "ma", "w", "+")],               # import mz as ma, ma as w
+        [("from", "ma", "x", "y"), ("from", "ma", "y", "z", "+"), ("from", "ma", "x", "x", "+"), ("assign", "w")],
     ]
+    mz = mod("mz", [("assign", "x"), ("assign", "y")])
     out = []
     for a, bdef in itertools.product(mas, mbs):
         al = [s for s in bdef if isinstance(s, str)]
         body = [s for s in bdef if not isinstance(s, str)]
         b = mod("mb", body, all_=al[0][4:].split(",") if al else None)
-        t = {"mods": [a, b]}
+        t = {"mods": [a, mz, b]}
         if tree_loads(t):
             out.append(t)
     return out
@@ -332,7 +357,56 @@ SMALL_CLIENTS = [
     [("import", "mb", None), ("from", "mb", "x", "x")],
     [("from", "mb", "w", "w"), ("from", "ma", "y", "w")],
     [("from", "mb", "x", "q"), ("from", "mb", "x", "x"), ("def", "y")],
+    [("from", "mb", "x", "x"), ("from", "mb", "w", "w", "+")],              # from mb import x, w
+    [("from", "mb", "ma", "ma"), ("from", "mb", "w", "q", "+")],            # from mb import ma, w as q
 ]
+
+
+NAMES = POOL + ["q", "ma", "mb", "mc", "pk"]     # names looked at in namespaces (module names can be aliases)
+
+
+def swap_pair(rnd, tree, cand):
+    """one import statement that renames a name away and aliases another one to it:
+    `from m import n1 as a, n2 as n1`  /  `import m1 as a, m2 as m1` (either order)"""
+    if rnd.random() < 0.6:
+        m2 = rnd.choice(cand)
+        ns = sorted(namespace(tree, m2, POOL))
+        if len(ns) < 2:
+            return []
+        n1, n2 = rnd.sample(ns, 2)
+        a = rnd.choice([p for p in POOL + ["q"] if p != n1])
+        pair = [("from", m2, n1, a), ("from", m2, n2, n1)]
+    else:
+        plain = [c for c in cand if "." not in c]
+        if not plain or len(cand) < 2:
+            return []
+        m1 = rnd.choice(plain)
+        m2 = rnd.choice([c for c in cand if c != m1])
+        a = rnd.choice([p for p in POOL + ["q"] if p != m1])
+        pair = [("import", m1, a), ("import", m2, m1)]
+    if rnd.random() < 0.5:
+        pair.reverse()
+    return [pair[0], pair[1] + ("+",)]
+
+
+def join_pass(rnd, body):
+    """join consecutive compatible import bindings into one statement (distinct bound names per statement:
+    for a statement that binds one name twice the code looks at its FIRST matching alias, Python at the last)"""
+    out, group = [], set()
+    for b in body:
+        prev = out[-1] if out else None
+        ok = prev is not None and prev[0] == b[0] and (b[0] == "import" or (b[0] == "from" and prev[1] == b[1]))
+        if joined(b):
+            if not (ok and bound_name(b) not in group):
+                b = b[:-1]
+        elif ok and bound_name(b) not in group and rnd.random() < 0.4:
+            b = b + ("+",)
+        if joined(b):
+            group.add(bound_name(b))
+        else:
+            group = {bound_name(b)}
+        out.append(b)
+    return out
 
 
 def random_tree(rnd):
@@ -360,8 +434,11 @@ def random_tree(rnd):
             else:
                 m2 = rnd.choice(cand)
                 body.append(("import", m2, rnd.choice(POOL) if rnd.random() < 0.5 else None))
+        if cand and rnd.random() < 0.3:
+            body += swap_pair(rnd, tree, cand)
         if not body:
             body = [("assign", rnd.choice(POOL))]
+        body = join_pass(rnd, body)
         m = mod(name, body, init=(name == "pk"))
         tree["mods"].append(m)
         if rnd.random() < 0.3:
@@ -379,7 +456,7 @@ def random_client(rnd, tree):
         r = rnd.random()
         m2 = rnd.choice(names)
         if r < 0.45:
-            ns = sorted(namespace(tree, m2, POOL))
+            ns = sorted(namespace(tree, m2, NAMES))
             if ns:
                 n = rnd.choice(ns)
                 body.append(("from", m2, n, n if rnd.random() < 0.6 else rnd.choice(POOL + ["q"])))
@@ -389,7 +466,7 @@ def random_client(rnd, tree):
             body.append(("import", m2, rnd.choice(["q", "w", None, None])))
         else:
             body.append((rnd.choice(["def", "assign"]), rnd.choice(POOL)))
-    return body or [("star", names[0])]
+    return join_pass(rnd, body) or [("star", names[0])]
 
 
 # ---- statement lists for the fixes.py rules
@@ -498,7 +575,7 @@ def tree_case_text(k, tree, clients, useds, impl_out, cpython, stdlib):  # noqa:
     """Coq text for tree k: graph, resolve-vs-CPython cases, starred and reimported cases.
     returns (text, [labels of the Eval blocks in order with their case lists])"""
     cmods = [client_mod(i, b) for i, b in enumerate(clients)]
-    ids = Ids(tree_strings(tree, cmods) | {"q"})
+    ids = Ids(tree_strings(tree, cmods) | set(NAMES))
     blocks = []
     txt = [f"Definition g{k} : graph := {coq_graph(tree['mods'], ids)}.",
            f"Definition gc{k} : graph := g{k} ++ {coq_graph(cmods, ids)}."]
@@ -509,7 +586,7 @@ def tree_case_text(k, tree, clients, useds, impl_out, cpython, stdlib):  # noqa:
         if "__error__" in ns:
             rlabels.append(("module-error", m["name"], ns)); rc.append(f"({ids(m['name'])}, 0, Timeout)")
             continue
-        for n in POOL:
+        for n in NAMES:
             got = tuple(ns[n]) if n in ns else None
             rc.append(f"({ids(m['name'])}, {ids(n)}, {coq_res(got, ids)})")
             rlabels.append(("resolve", m["name"], n, got))
@@ -568,7 +645,7 @@ def run_tree_batch(impl, wd: Path, batch, tag, stdlib):
                 outs[rule].append(impl.run(rule, src))
             cl.append({"id": i, "before": src, "after": None, "names": list(used)})
         impl_outs.append(outs)
-        jobs.append({"dir": str(d), "modules": [m["name"] for m in tree["mods"]], "pool": POOL, "clients": cl})
+        jobs.append({"dir": str(d), "modules": [m["name"] for m in tree["mods"]], "pool": NAMES, "clients": cl})
     os.chdir(common.VERIF)
     cp = run_worker(jobs, base)
     files, blocks = [], []
@@ -665,7 +742,7 @@ STAGES = ["add_missing_imports", "fix_starred_imports", "fix_reimported_names", 
 
 
 def sweep_source(body, used):
-    lines = [render_binding(b, "client_mod", k) for k, b in enumerate(body)]
+    lines = render_body(body, "client_mod")
     lines.append("print(" + ", ".join(used) + ")")
     return "\n".join(lines) + "\n"
 
@@ -828,12 +905,28 @@ def sig_renamed_rebound_variable(c, n):
     return False
 
 
+def sig_statement_binds_name_twice(c, n):
+    """a module the client imports from contains ONE import statement that binds the changed name twice
+    (`from ma import x as v, y as v`): the redirect looks at the first such alias, Python keeps the last"""
+    used = {x.module for x in ast.walk(ast.parse(c["src"])) if isinstance(x, ast.ImportFrom)}
+    for m in c["tree"]["mods"]:
+        if m["name"] not in used:
+            continue
+        for node in ast.walk(ast.parse(render_module(m))):
+            if isinstance(node, (ast.Import, ast.ImportFrom)):
+                bound = [al.asname or al.name.split(".")[0] for al in node.names]
+                if bound.count(n) >= 2:
+                    return True
+    return False
+
+
 GUESSABLE: set = set()   # filled in check() from constants.ASSUMED_SOURCES / ASSUMED_PACKAGES / PACKAGE_ALIASES
 
 SIGS = {"same_name_rebound": sig_same_name_rebound, "dotted_import_head": sig_dotted_import_head,
         "nested_scope_binding": sig_nested_scope_binding, "relative_import_chain": sig_relative_import_chain,
         "local_import_made_global": sig_local_import_made_global, "guess_preempts_star": sig_guess_preempts_star,
-        "renamed_rebound_variable": sig_renamed_rebound_variable}
+        "renamed_rebound_variable": sig_renamed_rebound_variable,
+        "statement_binds_name_twice": sig_statement_binds_name_twice}
 IMPORT_SITES = set(SITE.values())
 
 
@@ -874,6 +967,11 @@ def special_tree():
         {"name": "pkr.mid", "init": False, "all": None, "body": [], "raw": "from .low import f\nh = ['@pkr.mid:h']\n"},
         {"name": "pkr", "init": True, "all": None, "body": [], "raw": "from .low import *\nfrom .mid import h\n"},
         mod("mc", [("import", "pkr.low", None), ("from", "ma", "x", "xx"), ("assign", "w")]),
+        # the seeded regression C18-a: a name renamed away before another one is aliased to it, in ONE statement
+        mod("msw", [("from", "ma", "x", "w"), ("from", "ma", "y", "x", "+"),
+                    ("import", "ma", "first"), ("import", "mb", "ma", "+")]),
+        # one statement binds v twice: Python keeps the last alias
+        {"name": "mtw", "init": False, "all": None, "body": [], "raw": "from ma import x as v, y as v\n"},
     ]}
 
 
@@ -909,6 +1007,10 @@ SPECIALS = [
     ("function-import-local", "import ma\ndef f():\n    from ma import y\n    return y\nprint(f())\n", [], ALL_RULES),
     ("missing-import", "print(os.getcwd(), x)\nfrom ma import x\n", ["x"], ALL_RULES),
     ("levels", "from ma import x\nimport ma as m2\nfrom ma import y\nprint(x, y, m2)\n", ["x", "y", "m2"], ALL_RULES),
+    ("toplevel-after-def", "def g():\n    pass\nimport mb as y\nfrom ma import *\nprint(y)\n", ["y"], ALL_RULES),
+    ("swap-from", "from msw import x, w\nprint(x, w)\n", ["x", "w"], ALL_RULES),
+    ("swap-import", "from msw import ma, first\nprint(ma, first)\n", ["ma", "first"], ALL_RULES),
+    ("twice-in-one-statement", "from mtw import v\nprint(v)\n", ["v"], ALL_RULES),
 ]
 
 
@@ -1147,7 +1249,7 @@ def check(run: common.Run):  # noqa: C901
     run.coverage.update(
         evaluations=n_tree_cases * 2 + n_resolve + len(cs) + n_exec,
         distinct_nontrivial=len(distinct),
-        rule=("tree cases: ALL loading combinations of 4 variants of module ma x 11 variants of mb x 14 client import "
+        rule=("tree cases: ALL loading combinations of 4 variants of module ma x 16 variants of mb (several aliases in one statement, swapped names) x 16 client import "
               f"forms (exhaustive, {len(small)} trees), + {len(batch)} seeded random trees (modules ma mb pk/__init__ "
               "pk.s1 pk.s2 mc, re-export chains, aliases, star imports, __all__ as list/tuple) x 8 random clients; for "
               "each: resolve vs CPython namespaces, fix_starred_imports and fix_reimported_names vs model. statement "
